@@ -69,16 +69,18 @@ Theorem C06_history_length_and_symbols : forall (C : codec) (dbg : bool), codec_
 Proof. exact history_length_and_symbols. Qed.
 
 (* the same for the WHOLE script language of the correspondence check: every script over the core
-   operations (slicing with nested ranges of all forms, edits, reversal, complement, masking, set
-   operations, text, iteration, windows, chunks, equality, order, hashing, integer views, and the
-   k-mer operations) on which the list-of-symbols machine [lm_run] is defined produces, in the
+   language (all 88 operations: slicing with nested ranges of all forms, edits, reversal,
+   complement, masking, set operations, text, iteration, windows, chunks, equality, order, hashing,
+   integer views and word images, SeqArray, k-mers, conversion, translation, custom tables; the
+   regenerated conversion and translation tables are parameters of both machines) on which the
+   list-of-symbols machine [lm_run] is defined (no panic at the level of lists) produces, in the
    bit-level model that is compared with the implementation, exactly the list machine's
    observations and no panic, in both build profiles *)
 Theorem C06_vm_refines_list_machine : forall (C : codec) (dbg : bool), codec_ok C ->
-  forall (ci ct : N -> res N) (ic tc ac : codec) (stdt : list tres) (stdc : list (N * cres))
+  forall (cvi cvt : N -> res N) (ic tc ac : codec) (stdt : list tres) (stdc : list (N * cres))
          (ops : list op) (l' : lstate),
-  lm_run C {| lregs := []; lk := None; lout := [] |} ops = Some l' ->
-  VM.run C dbg ci ct ic tc ac stdt stdc ops = (rev (lout l'), false).
+  lm_run C cvi cvt ic tc ac stdt stdc {| lregs := []; lk := None; lct := []; lout := [] |} ops = Some l' ->
+  VM.run C dbg cvi cvt ic tc ac stdt stdc ops = (rev (lout l'), false).
 Proof. exact script_refines. Qed.
 
 (* non-vacuity: a concrete history *)
